@@ -123,6 +123,49 @@ func Enumerate(bound int, f func(c Chooser), visit func(r *Run), st *Stats) {
 	rec(nil, 0)
 }
 
+// EnumerateSharded is Enumerate restricted to one shard: the root run belongs to shard 0 and the
+// k-th level-1 subtree (first deviation) to shard k mod n. The union over the shards is Enumerate.
+func EnumerateSharded(bound int, f func(c Chooser), visit func(r *Run), st *Stats, shard, n int) {
+	if n <= 1 {
+		Enumerate(bound, f, visit, st)
+		return
+	}
+	var rec func(prefix []int, cost int, mine bool)
+	k := 0
+	rec = func(prefix []int, cost int, mine bool) {
+		r := NewRun(prefix)
+		f(r)
+		st.Runs++
+		if len(r.Choices) < len(prefix) {
+			panic("explore: diverging replay: run shorter than its prefix")
+		}
+		if mine {
+			visit(r)
+		}
+		if cost >= bound {
+			return
+		}
+		for i := len(prefix); i < len(r.Points); i++ {
+			for alt := 1; alt < r.Points[i].N; alt++ {
+				sub := mine
+				if cost == 0 {
+					sub = k%n == shard
+					k++
+					if !sub {
+						continue
+					}
+				}
+				next := make([]int, i+1)
+				copy(next, r.Choices[:i])
+				next[i] = alt
+				st.Transitions++
+				rec(next, cost+1, sub)
+			}
+		}
+	}
+	rec(nil, 0, shard == 0)
+}
+
 // Fixed is a Chooser answering from a stored vector (0 afterwards), used by replays.
 type Fixed struct {
 	Vec []int
